@@ -82,7 +82,7 @@ def spec_hash(files, extra=""):
 # --------------------------------------------------------------------------- TLC
 def tlc_cmd(module, cfg, workers=1, heap="3g", extra=None, metadir=None, simulate=None):
     cmd = ["java", "-XX:+UseParallelGC", "-Xmx" + heap, "-Xss16m", "-cp", TLA_CP, "tlc2.TLC",
-           "-workers", str(workers), "-metadir", metadir, "-config", cfg]
+           "-workers", str(workers), "-metadir", metadir, "-noGenerateSpecTE", "-config", cfg]
     if extra:
         cmd += extra
     cmd.append(module)
